@@ -13,6 +13,7 @@ A check module (checks/cXX.py) provides:
 Exit codes: 0 held, 1 violation (with VIOLATION line), 2 harness error.
 """
 import collections
+import gc
 import hashlib
 import importlib
 import json
@@ -73,7 +74,10 @@ def _worker(args):
     try:
         mod = importlib.import_module(modname)
         res = mod.run_scenario(sc, tier)
-        return ("ok", res.pack())
+        packed = res.pack()
+        del res
+        gc.collect()
+        return ("ok", packed)
     except BaseException as e:  # harness errors must surface, not hang the pool
         return ("err", f"scenario {sc!r}: {type(e).__name__}: {e}\n{traceback.format_exc()}")
 
